@@ -175,11 +175,25 @@ func lsGenMut(g kit.G, m *lsGenModel, def []int) lsMut {
 	}
 	switch op {
 	case "add":
-		mu := lsMut{Op: "add", Root: pickRoot("root"), Path: kit.Pick(g, lsPathPool, "path"), Content: g.Int(0, lsContents-1, "content")}
-		if lsGitSuffixed(mu.Root, mu.Path) {
-			mu.Kind = kit.Pick(g, []string{"bare", "bare", "bare", "bare", "bare", "nonbare", "fake"}, "kind")
-		} else {
-			mu.Kind = kit.Pick(g, []string{"nonbare", "nonbare", "nonbare", "nonbare", "nonbare", "gitfile"}, "kind")
+		var mu lsMut
+		wantDup := g.Bool(10, "wantdup") // name collisions are wanted, but not in most histories
+		for attempt := 0; attempt < 4; attempt++ {
+			mu = lsMut{Op: "add", Root: pickRoot("root"), Path: kit.Pick(g, lsPathPool, "path"), Content: g.Int(0, lsContents-1, "content")}
+			if lsGitSuffixed(mu.Root, mu.Path) {
+				mu.Kind = kit.Pick(g, []string{"bare", "bare", "bare", "bare", "bare", "nonbare", "fake"}, "kind")
+			} else {
+				mu.Kind = kit.Pick(g, []string{"nonbare", "nonbare", "nonbare", "nonbare", "nonbare", "gitfile"}, "kind")
+			}
+			name := lsModelName(lsRootPool[mu.Root], mu.Path, mu.Kind)
+			dup := false
+			for _, r := range m.repos {
+				if lsModelName(lsRootPool[r.Root], r.Path, r.Kind) == name {
+					dup = true
+				}
+			}
+			if dup == wantDup || (!dup && attempt > 0) {
+				break
+			}
 		}
 		if m.find(mu.Root, mu.Path) < 0 && mu.Kind != "fake" {
 			m.repos = append(m.repos, lsGenRepo{mu.Root, mu.Path, mu.Kind})
@@ -218,11 +232,21 @@ func lsGenMut(g kit.G, m *lsGenModel, def []int) lsMut {
 			return mu
 		}
 		mu.ToRoot = r.Root
-		if g.Bool(65, "move-otherroot") {
-			mu.ToRoot = pickRoot("toroot")
+		if g.Bool(70, "move-otherroot") {
+			var others []int
+			for _, d := range def {
+				if d != r.Root {
+					others = append(others, d)
+				}
+			}
+			if len(others) > 0 && g.Bool(80, "move-defroot") {
+				mu.ToRoot = kit.Pick(g, others, "toroot")
+			} else {
+				mu.ToRoot = g.Int(0, len(lsRootPool)-1, "toroot-any")
+			}
 		}
 		mu.ToPath = r.Path
-		if mu.ToRoot == r.Root || g.Bool(40, "move-rename") {
+		if mu.ToRoot == r.Root || g.Bool(35, "move-rename") {
 			var cands []string
 			for _, p := range lsPathPool[1:] {
 				if strings.HasSuffix(p, ".git") == (r.Kind == "bare") {
@@ -245,7 +269,7 @@ func lsGenMut(g kit.G, m *lsGenModel, def []int) lsMut {
 }
 
 func lsGenCmd(g kit.G, m *lsGenModel, def []lsArg, step, nsteps int) lsCmd {
-	if step > 0 && step < nsteps-1 && g.Bool(20, "remove") || (step == nsteps-1 && step > 0 && g.Bool(8, "remove-last")) {
+	if step > 0 && step < nsteps-1 && g.Bool(12, "remove") || (step == nsteps-1 && step > 0 && g.Bool(5, "remove-last")) {
 		cmd := lsCmd{Op: "remove"}
 		n := 1
 		if g.Bool(15, "twosel") {
@@ -334,6 +358,9 @@ func lsGen(rt *rapid.T) lsCase {
 	for s := 0; s < nsteps; s++ {
 		var st lsStep
 		nm := g.Int(0, 3, "nmuts")
+		if g.Bool(20, "nomuts") {
+			nm = 0 // a command on an unchanged layout (everything up to date)
+		}
 		if s == 0 {
 			nm = g.Int(2, 6, "nmuts0")
 		}
